@@ -523,16 +523,18 @@ class XtcePacketDefinition(common.AttrComparable):
                 _segmented_packets[raw_packet_data.apid].append(raw_packet_data)
                 # We have received the final packet, close it up and combine all of
                 # the segmented packets into a single "packet" for XTCE parsing
-                sequence_counts = [p.sequence_count for p in _segmented_packets[raw_packet_data.apid]]
+                # The group is finished (complete or not), so forget it to prevent reusing its packets
+                segments = _segmented_packets.pop(raw_packet_data.apid)
+                sequence_counts = [p.sequence_count for p in segments]
                 if not all((sequence_counts[i + 1] - sequence_counts[i]) % 16384 == 1
                            for i in range(len(sequence_counts) - 1)):
                     warnings.warn(f"Continuation packets for apid {raw_packet_data.apid} "
                                   f"are not in sequence {sequence_counts}, skipping these packets.")
                     continue
                 # Add all content (including header) from the first packet
-                raw_data = _segmented_packets[raw_packet_data.apid][0]
+                raw_data = segments[0]
                 # Add the continuation packets to the first packet, skipping the headers
-                for p in _segmented_packets[raw_packet_data.apid][1:]:
+                for p in segments[1:]:
                     raw_data += p[raw_packet_data.HEADER_LENGTH_BYTES + secondary_header_bytes:]
                 packet = packets.CCSDSPacket(raw_data=raw_data)
 
